@@ -173,14 +173,17 @@ CHECKS = {
     category="model_checking",
     text="DenseMatrix.tla is an executable reference model written from matrices.rst: a heap of matrix objects and an environment of names; "
          "constructors, one/two-argument indexing and indexed assignment (ints, negative ints, slices via Python's slice.indices, lists, "
-         "integer matrices), + - * with type promotion and the number / 1x1 rules, in-place operators (allowed exactly when type and size are "
-         "preserved), transposes, real/imag, size reassignment, len/sum, aliasing. TLC explores a box of operations for the design invariants "
+         "integer matrices), + - * / % ** with type promotion and the number / 1x1 rules (division and remainder by zero, Python sign convention of "
+         "the remainder, integer ** integer is real), in-place operators incl. /= and %= (allowed exactly when type and size are preserved), "
+         "transposes, real/imag, abs, size reassignment, len/sum/bool/max/min/in/iteration, cvxopt.mul/div/max/min with two arguments, aliasing. "
+         "Results outside the Gaussian integers are 'cut' (type and shape specified, values not compared, trace ends). TLC explores a box of operations for the design invariants "
          "(well-formedness, typecode stability, errors change nothing, regular results are fresh objects). Seeded random programs run on real "
          "cvxopt.matrix objects and TLC validates every step of every trace: result, every named object (typecode, size, all entries) and "
          "which names share an object.",
     design_ref="DESIGN.md section 4 C15",
-    note="Integer-valued data (arithmetic exact). Not modelled yet: division, remainder, power, elementwise functions, buffer constructors "
-         "(see C20), integers beyond 32 bits. Three clauses are marked CALIBRATED in the spec (empty left-hand sides, empty conversions).",
+    note="Integer-valued data (arithmetic exact); quotients are compared only for divisors that are powers of two (the implementation multiplies "
+         "by the reciprocal), complex powers and non-square moduli not at all. Not modelled: exp/log/sqrt/sin/cos, buffer constructors "
+         "(see C20), integers beyond 32 bits. Programs run in forked children (an interpreter crash is attributed to the shortest crashing prefix). Three clauses are marked CALIBRATED in the spec (empty left-hand sides, empty conversions).",
     technique="TLA+ executable reference model; TLC box exploration + TLC trace validation of random programs run on the real objects"),
  "C16": dict(
     category="model_checking",
